@@ -389,13 +389,39 @@ class Evaluator:
                 out.append(('spread', self.event('spread', self.ev(pr['_0']['expr']))))
                 continue
             pp = pr['_0']
-            if is_lazy(pp) or pp.get('_v') != 'KeyValue':
-                out.append(self.event('opaque-prop', str(pp.get('_v'))))
+            if is_lazy(pp):
+                out.append(self.event('opaque-prop', pp['_lazy']))
                 continue
-            kv = pp['_0']
-            key = kv['key']
-            kval = ('name', key['_0']['sym']) if (not is_lazy(key) and key.get('_v') == 'Ident') else ('key', str(key.get('_v')))
-            out.append((kval, self.ev(kv['value'])))
+
+            def keyval(key):
+                if is_lazy(key):
+                    return self.event('opaque', key['_lazy'])
+                if key.get('_v') == 'Ident':
+                    return ('name', key['_0']['sym'])
+                if key.get('_v') == 'Str':
+                    return ('name', key['_0']['value'])
+                if key.get('_v') == 'Computed':
+                    # the key expression is evaluated (and converted to a property key) before the value
+                    return self.event('to-property-key', self.ev(key['_0']['expr']))
+                return ('key', str(key.get('_v')))
+            if pp.get('_v') == 'KeyValue':
+                kv = pp['_0']
+                kval = keyval(kv['key'])
+                out.append((kval, self.ev(kv['value'])))
+            elif pp.get('_v') == 'Shorthand':
+                out.append((('name', pp['_0']['sym']), self.e_Ident(pp['_0'], {'_t': 'Expr', '_v': 'Ident', '_0': pp['_0']})))
+            elif pp.get('_v') == 'Method':
+                mp = pp['_0']
+                kval = keyval(mp['key'])
+                f = mp['function']
+                if is_lazy(f):
+                    out.append((kval, self.event('opaque', f['_lazy'])))
+                else:
+                    params = [x['pat'] for x in f['params']] if not is_lazy(f['params']) else []
+                    body = f['body']
+                    out.append((kval, self.closure(params, body['stmts'] if body is not None and not is_lazy(body) else [], False)))
+            else:
+                out.append(self.event('opaque-prop', str(pp.get('_v'))))
         return ('obj',) + tuple(out)
 
     def e_Tpl(self, p, e):
